@@ -2138,6 +2138,9 @@ class Node(SimComponent, ABC):
             self._shut_down_actions()
             self.operating_state = NodeOperatingState.OFF
             self.sys_log.info("Power off")
+            if self.config.is_resetting:
+                self.config.is_resetting = False
+                self.power_on()
             return True
         if self.operating_state == NodeOperatingState.ON:
             for network_interface in self.network_interfaces.values():
